@@ -27,6 +27,7 @@ type Case struct {
 	WorldNames []string
 	Opts       hx.RunOpts
 	Meta       map[string]string // family coordinates (used for signatures)
+	Reloaded   bool              // run on a knowledge base that went through binary store + load
 }
 
 // Verdict is what a judge returns for one trace.
@@ -142,6 +143,13 @@ func runCase(rep *ev.Reporter, c *Case, maxRuns int, fs *FamilyStats, judge func
 		atomic.AddInt64(&fs.BuildFail, 1)
 		rep.Violation("harness:build-failed:"+c.ID, "a generated program was rejected by the builder: "+err.Error(), map[string]interface{}{"case": c.ID, "grl": prog.Text})
 		return
+	}
+	if c.Reloaded {
+		b, err = b.Reloaded()
+		if err != nil {
+			rep.Violation(rep.ID+":store-load-of-generated-program-fails", err.Error()+"\n  grl: "+prog.Text, map[string]interface{}{"case": c.ID, "grl": prog.Text})
+			return
+		}
 	}
 	first := true
 	for wi, mk := range c.Worlds {
